@@ -414,6 +414,10 @@ func reflUnits(prog *Program, ms *MsgSchema, o reflOpts) []*Unit {
 	var out []*Unit
 	names := fullNames(ms.Pkg)
 	methods := []string{"Has", "Get", "Set", "Clear", "Mutable", "NewField", "WhichOneof", "Range", "GetUnknown", "SetUnknown", "IsValid"}
+	if o.frame && !o.contract && !o.nilrecv && !o.unknown && !o.get {
+		// frame-only run: the remaining read-only methods of the message view are executed for their stores as well
+		methods = append(methods, "Interface", "Descriptor", "Type", "New")
+	}
 	for _, m := range methods {
 		if o.only != nil && !o.only[m] {
 			continue
